@@ -14,7 +14,7 @@ sys.path.insert(0, '/verif/lib')
 import rtok, gen, registry
 u = registry.UNITS[sys.argv[1]]
 idx = rtok.index_items(rtok.parse_items(rtok.tokenize(open('/var/tmp/vdev/expanded.rs').read())))
-text, origin, info = gen.build_unit(idx, u['verify'], u['trusted'], u['spec'], '/verif', spec_import=u.get('spec_import', ()))
+text, origin, info = gen.build_unit(idx, u['verify'], u['trusted'], u['spec'], '/verif', spec_import=u.get('spec_import', ()), module_ext=u.get('module_ext', True))
 open('/var/tmp/vdev/u_%s.rs' % sys.argv[1], 'w').write(text)
 PY
 cd $D
